@@ -59,6 +59,8 @@ type vwStep struct {
 	Tag   string `json:"tag"`
 	Db    int    `json:"db"`   // DbId of the request (0 default; a never-created db or 0xff make a will end in UNKNOWN_DB)
 	Data  string `json:"data"` // value payload (SET <string>) carried by the request, "" = none
+	Group []vwStep `json:"group"` // op "par": requests of DIFFERENT connections written at the same moment, one goroutine each
+	Stall int      `json:"stall"` // op "par": the client of connection C reads slowly (ms before each further frame) meanwhile
 }
 
 type vwScenario struct {
@@ -123,6 +125,7 @@ type vwConn struct {
 	wills     []vwWill
 	parked    chan int64
 	gated     bool
+	stallMs   int64 // slow reader (atomic): pause before each read
 }
 
 type vwRun struct {
@@ -193,6 +196,9 @@ func (r *vwRun) readBinary(c *vwConn) {
 	defer close(c.readerEnd)
 	buf := make([]byte, 64)
 	for {
+		if d := atomic.LoadInt64(&c.stallMs); d > 0 {
+			time.Sleep(time.Duration(d) * time.Millisecond)
+		}
 		if _, err := io.ReadFull(c.cli, buf); err != nil {
 			if !c.cliClosed {
 				r.emit(map[string]interface{}{"e": "weof", "c": c.id, "t": r.w.now})
@@ -1067,6 +1073,68 @@ func (r *vwRun) drain(n int) {
 	r.emit(r.snapshot(true))
 }
 
+// Several binary connections write one request each at the same moment (one goroutine per connection), while the client
+// of connection s.C reads slowly: the replies these requests cause for s.C (grants of its queued requests) are produced by
+// DIFFERENT goroutines that meet at s.C's write path while one of them is inside a slow write.
+func (r *vwRun) parallel(s *vwStep) {
+	target := r.conns[s.C]
+	type job struct {
+		c   *vwConn
+		buf []byte
+		pid int64
+	}
+	jobs := []job{}
+	used := map[int]bool{}
+	for i := range s.Group {
+		g := &s.Group[i]
+		c := r.conns[g.C]
+		if c == nil || c.closing || c.cliClosed || c.kind != "bin" || used[g.C] || g.C == s.C {
+			r.emit(map[string]interface{}{"e": "wskip", "why": "par: connection not usable", "c": g.C, "t": r.w.now})
+			continue
+		}
+		used[g.C] = true
+		r.nextId++
+		id := r.nextId
+		cmd, ct := "L", uint8(protocol.COMMAND_LOCK)
+		if g.Op == "unlock" {
+			cmd, ct = "U", protocol.COMMAND_UNLOCK
+		}
+		r.emit(map[string]interface{}{"e": "wreq", "id": id, "c": c.id, "kind": c.kind, "cmd": cmd, "will": false, "key": g.Key, "lid": g.Lid,
+			"to": g.To, "ex": g.Ex, "cnt": g.Cnt, "rc": g.Rc, "db": g.Db, "data": false, "t": r.w.now})
+		pb, pid := r.pingFrame()
+		jobs = append(jobs, job{c, append(vwLockFrame(ct, id, g), pb...), pid})
+	}
+	if target != nil && s.Stall > 0 {
+		atomic.StoreInt64(&target.stallMs, int64(s.Stall))
+	}
+	r.mark("a request of a parallel step was never answered")
+	var wg sync.WaitGroup
+	start := make(chan struct{})
+	oks := make([]bool, len(jobs))
+	for i := range jobs {
+		wg.Add(1)
+		go func(i int) {
+			defer wg.Done()
+			<-start
+			oks[i] = r.write(jobs[i].c, jobs[i].buf)
+		}(i)
+	}
+	close(start)
+	wg.Wait()
+	for i := range jobs {
+		if oks[i] {
+			r.awaitPong(jobs[i].c, jobs[i].pid)
+		}
+	}
+	if target != nil {
+		atomic.StoreInt64(&target.stallMs, 0)
+		if !target.closing && !target.cliClosed && target.kind == "bin" {
+			r.ping(target)
+		}
+	}
+	r.settle()
+}
+
 // the private command stack / locked free queue of every open connection (read while the connections are idle); `n` of the
 // step is the index the CmdPool model predicts for connection `c` (scaled), compared outside - never a verdict
 func (r *vwRun) poolEvent(s *vwStep) {
@@ -1130,6 +1198,8 @@ func (r *vwRun) run(sc *vwScenario) {
 		case "settle":
 			r.tick(s.N)
 			r.emit(r.snapshot(false))
+		case "par":
+			r.parallel(s)
 		case "pool":
 			r.poolEvent(s)
 		case "closeall":
